@@ -888,10 +888,14 @@ pub fn run_property(ctx: &Ctx, spec: &PropSpec, only: Option<&str>) -> RunOutcom
         let r = check.run(ctx, spec.id, &known);
         stats.merge(r.stats);
         if let Some(f) = r.failure {
+            // a hang / process death found in an isolated worker would hang or kill an in-process
+            // sub-check that shares the generator: stop there.  Other failures (e.g. a caught
+            // panic) let the remaining sub-checks run, so an in-process twin can shrink the case.
+            let fatal = f.message.contains("worker process died") || f.message.contains("watchdog");
             failures.push(f);
-            // later sub-checks may share the failure mode (e.g. a hang found in an isolated
-            // worker would hang an in-process sub-check): stop at the first failing sub-check
-            break;
+            if fatal {
+                break;
+            }
         }
     }
     let wall = start.elapsed().as_secs_f64();
